@@ -17,6 +17,33 @@ def utf16_units(line):
     return [u[i:i + 2] for i in range(0, len(u), 2)]
 
 
+FRAGMENT_TOKENS = {"Package", "Import", "GoCode", "GohtStart", "Script", "SilentScript", "DynamicText", "AttrDynamicValue", "ObjectRef", "RenderCommand"}
+
+
+def fragment_tokens(c):
+    """(kind, text, line, col) of every embedded Go fragment, from the real lexer's token stream; a fragment with a format verb
+    is two fragments (verb and expression); a silent script is mapped without its surrounding blanks"""
+    toks = common.run_lines(common.IMPLRUN, ["tokens " + hx(c)])[0]
+    out = []
+    for t in toks.split(";"):
+        p = t.split(":")
+        if len(p) != 4 or p[0] not in FRAGMENT_TOKENS:
+            continue
+        lit, line, col = unhx(p[1]), int(p[2]), int(p[3])
+        if p[0] in ("DynamicText", "Script", "AttrDynamicValue") and lit.startswith(b"%") and b" " in lit and b"\n" not in lit:
+            i = lit.index(b" ")
+            if i >= 2 and len(lit) > i + 1:
+                out.append((p[0] + "-verb", lit[:i], line, col))
+                out.append((p[0] + "-expr", lit[i + 1:], line, col + i + 1))
+                continue
+        if p[0] == "SilentScript":
+            lit = lit.rstrip(b" \t")
+        if p[0] == "AttrDynamicValue" and b"," in lit:
+            continue   # a class list: several expressions, mapped as one fragment only when it is the whole value
+        out.append((p[0], lit, line, col))
+    return out
+
+
 def sm_corpus(chk, quick):
     rng = chk.rng
     gens = lcompile.generated_files(rng, 220 if quick else 5000)
@@ -25,7 +52,7 @@ def sm_corpus(chk, quick):
     base += [
         b"package x\n\nimport (\n\t\"fmt\"\n\tstr \"strings\"\n)\n\nvar a = 1\n\n@goht A(\n\ta string,\n\tb int,\n) {\n\t%p{a: #{foo(\n\t\ta)}, b: \"c\"} t #{a} #{%d b}\n\t- if b > 1\n\t\t= a\n\t- else if b < 0\n\t\t= str.ToUpper(a)\n\t%i[obj]{class: #{a, \"k\"}}\n\t= @render B()\n}\n",
         "package x\n@goht A(s string) {\n\t%p hé #{s} ☢ #{\"é\" + s} x\n\t%b{t: #{\"世\" + s}, u: #{s}}\n}\n".encode(),
-        b"@goht A(s string) {\n\t%p\n\t\t= %s s\n\t\t= %d d\n\t\t#{%v v} and #{%q s}\n}\n",
+        b"@goht A(s string) {\n\t%p\n\t\t= %s s\n\t\t= %d d\n\t\tx #{%v v} and #{%q s}\n\t%i{a: #{%s s}, b: #{%d d}} #{%s s}\n}\n",
     ]
     return base
 
@@ -57,35 +84,34 @@ def check_tables(chk, c, ri, rm, want):
             fwd = ri.s2t.get((sl, sc))
             if fwd != (tl, tc):
                 fails.append(("generated %d:%d -> template %d:%d -> generated %s: not inverse" % (tl, tc, sl, sc, fwd), known_nonascii(sl, tl)))
-    # fragments = the Add calls of the (corresponding) model
-    if rm is not None and rm.cls == "done":
-        for lit, line, col, tline, tcol in rm.adds:
-            for idx, ln in enumerate(lit.split(b"\n")):
-                sl = line + idx - 1
-                sc0 = col - 1 if idx == 0 else 0
-                prev = None
-                for k in range(len(ln) + 1):
-                    tgt = ri.s2t.get((sl, sc0 + k))
-                    if tgt is None:
-                        if "c07" in want:
-                            fails.append(("position %d:%d inside fragment %r is not mapped" % (sl, sc0 + k, lit[:40]), False))
-                        continue
-                    if "c16" in want and prev is not None and tgt[0] == prev[0] and tgt[1] <= prev[1]:
-                        fails.append(("translation not strictly increasing inside fragment %r at %d:%d" % (lit[:40], sl, sc0 + k), known_nonascii(sl, tgt[0])))
-                    prev = tgt
-                    if "c07" in want and k < len(ln):
-                        tl, tc = tgt
-                        # protocol positions count UTF-16 code units on both sides
-                        su = utf16_units(src_lines[sl]) if 0 <= sl < len(src_lines) else []
-                        tu = utf16_units(tgt_lines[tl]) if 0 <= tl < len(tgt_lines) else []
-                        ok = sc0 + k < len(su) and tc < len(tu) and su[sc0 + k] == tu[tc]
-                        if not ok:
-                            # known finding F15: the map counts bytes after a multi-byte rune inside the fragment
-                            # (template side) or before the position on the generated line
-                            inside = not is_ascii(ln[:k + 1]) or not is_ascii(ln)
-                            before_t = 0 <= tl < len(tgt_lines) and not is_ascii(tgt_lines[tl][:tc + 1])
-                            fails.append(("template %d:%d and generated %d:%d hold different characters (fragment %r)" % (sl, sc0 + k, tl, tc, lit[:40]),
-                                          inside or before_t))
+    # fragments = the fragment tokens of the real lexer (independent of the model)
+    for kind, lit, line, col in fragment_tokens(c):
+        for idx, ln in enumerate(lit.split(b"\n")):
+            sl = line + idx - 1
+            sc0 = col - 1 if idx == 0 else 0
+            prev = None
+            for k in range(len(ln) + 1):
+                tgt = ri.s2t.get((sl, sc0 + k))
+                if tgt is None:
+                    if "c07" in want and k < len(ln) and is_ascii(ln):
+                        fails.append(("position %d:%d of %s fragment %r is not covered by the map" % (sl, sc0 + k, kind, lit[:40]), False))
+                    continue
+                if "c16" in want and prev is not None and tgt[0] == prev[0] and tgt[1] <= prev[1]:
+                    fails.append(("translation not strictly increasing inside fragment %r at %d:%d" % (lit[:40], sl, sc0 + k), known_nonascii(sl, tgt[0])))
+                prev = tgt
+                if "c07" in want and k < len(ln):
+                    tl, tc = tgt
+                    # protocol positions count UTF-16 code units on both sides
+                    su = utf16_units(src_lines[sl]) if 0 <= sl < len(src_lines) else []
+                    tu = utf16_units(tgt_lines[tl]) if 0 <= tl < len(tgt_lines) else []
+                    ok = sc0 + k < len(su) and tc < len(tu) and su[sc0 + k] == tu[tc]
+                    if not ok:
+                        # known finding F15: the map counts bytes after a multi-byte rune inside the fragment
+                        # (template side) or before the position on the generated line
+                        inside = not is_ascii(ln)
+                        before_t = 0 <= tl < len(tgt_lines) and not is_ascii(tgt_lines[tl][:tc + 1])
+                        fails.append(("template %d:%d and generated %d:%d hold different characters (%s fragment %r)" % (sl, sc0 + k, tl, tc, kind, lit[:40]),
+                                      inside or before_t))
     return fails, txt
 
 
